@@ -10,7 +10,7 @@ TInit == ents = <<>> /\ lastOp = [op |-> "init", k |-> 0, v |-> 0] /\ l = 1 /\ s
 Expected == Apply(ents, Ev.op, Ev.k, Ev.v)
 Seconds(s) == [i \in 1..Len(s) |-> s[i][2]]
 ResultOk(r) ==
-      /\ (Ev.op \in {"put", "get", "getmulti", "saveload"} => Ev.ok = r.ok)
+      /\ (Ev.op \in {"put", "get", "getmulti", "saveload", "debug"} => Ev.ok = r.ok)
       /\ (Ev.op \in {"get", "getmulti"} /\ ~r.ok => Ev.err = r.err)
       /\ (Ev.op \in {"get", "getmulti", "remove", "rmwalk", "walk", "walkname", "size", "saveload"} => Ev.n = r.n)
       /\ (Ev.op \in {"walk", "walkname", "saveload"} => Ev.out = r.out)
